@@ -70,12 +70,27 @@ func (s *serverSocket) checkMiddlewareFunc(rv reflect.Value) error {
 	return nil
 }
 
-func (s *serverSocket) callMiddlewares(values []reflect.Value) error {
+func (s *serverSocket) callMiddlewares(eventName string, values []reflect.Value) error {
 	s.middlewareFuncsMu.RLock()
 	defer s.middlewareFuncsMu.RUnlock()
 
+	if len(s.middlewareFuncs) == 0 {
+		return nil
+	}
+
+	// A middleware is a func(eventName string, v ...any) error (or v []any):
+	// it gets the name of the event and the arguments of the event (without the acknowledgement function).
+	v := make([]any, 0, len(values))
+	for _, value := range values {
+		if value.Kind() == reflect.Func || !value.CanInterface() {
+			continue
+		}
+		v = append(v, value.Interface())
+	}
+	args := []reflect.Value{reflect.ValueOf(eventName), reflect.ValueOf(v)}
+
 	for _, f := range s.middlewareFuncs {
-		err := s.callMiddlewareFunc(f, values)
+		err := s.callMiddlewareFunc(f, args)
 		if err != nil {
 			return err
 		}
@@ -93,7 +108,12 @@ func (s *serverSocket) callMiddlewareFunc(rv reflect.Value, values []reflect.Val
 			}
 		}
 	}()
-	rets := rv.Call(values)
+	var rets []reflect.Value
+	if rv.Type().IsVariadic() {
+		rets = rv.CallSlice(values)
+	} else {
+		rets = rv.Call(values)
+	}
 	ret := rets[0]
 	if ret.IsNil() {
 		return nil
